@@ -15,7 +15,7 @@ from . import ser_common as sc
 LEVEL = "proof"
 MANIFEST_ENTRY = {
     "category": "proof",
-    "text": "Lean 4 theorems over a step-level model of save()'s filesystem protocol (staging next to the target, install, discard on failure): for every store, number of writes, pre-state and fault position the target is afterwards unchanged, absent or the complete new object (never partial), a non-raising call leaves the complete object, write-once raises before any effect, no other path changes. Tied to the code on every run by injecting an exception at EVERY primitive write/zip-assembly/install call of the real save() (exhaustive in the fault position for each generated graph, both stores, both modes, six pre-states: absent, foreign file, foreign directory, zero-byte file, empty directory, earlier checkpoint), feeding the recorded primitive trace to the model and comparing outcomes; the property clauses are evaluated on the real filesystem (hashes of siblings, load() of the target).",
+    "text": "Lean 4 theorems over a step-level model of save()'s filesystem protocol (staging next to the target, install, discard on failure): for every store, number of writes, pre-state and fault position the target is afterwards unchanged, absent or the complete new object (never partial), a non-raising call leaves the complete object, write-once raises before any effect, no other path changes. Tied to the code on every run by injecting an exception at EVERY primitive write/zip-assembly/install call of the real save() (exhaustive in the fault position for each generated graph, both stores, both modes, six pre-states: absent, foreign file, foreign directory, zero-byte file, empty directory, earlier checkpoint), feeding the recorded primitive trace to the model and comparing outcomes; the property clauses are evaluated on the real filesystem (hashes of siblings, load() of the target). Histories of saves onto one target (theorem saves_history: the target is always the initial content, absent, or the complete object of a call that returned normally) are run on the real code with faults at random primitives and compared prefix by prefix with the model's runCalls.",
     "note": "Trusted: Lean kernel + standard axioms; os/shutil/zipfile/zarr filesystem semantics (existence, remove, replace, directory listing); faults are exceptions raised at the entry of a primitive (no process kill / power loss / concurrent writers / TOCTOU between exists and open).",
     "technique": "Lean 4 proof (induction over step lists, all fault positions) + exhaustive fault-injection correspondence",
 }
@@ -440,6 +440,148 @@ def run_natural_failure(ctx, drv, recipe, store, pre, idx):
     shutil.rmtree(base, ignore_errors=True)
 
 
+def history_stream(ctx, drv, n_hist):
+    """histories of save() calls onto ONE target (theorem `saves_history`): different objects, both
+    modes, a fault at a random primitive of some of the calls.  After every call the real target must
+    be what it was before the history, absent, or the complete object of the most recent call that
+    returned normally; the outcome of every prefix is compared with `runCalls` / `succeededIds`."""
+    from quantem.core.io import serialize  # noqa: F401
+    scratch = os.environ.get("QVERIF_SCRATCH", "/tmp/qverif-scratch")
+    rng0 = ctx.rng.fork(880088)
+    for h in range(n_hist):
+        rng = rng0.fork(h)
+        store = rng.choice(["zip", "dir"])
+        zip_store = store == "zip"
+        pre = rng.choice(["absent", "absent", "earlier", "file", "emptydir"])
+        base = os.path.join(scratch, f"hist{h}")
+        builder = sc.Builder(None)
+        old_recipe = ["obj", "SB", [["old", ["scalar", sc.S(rng.randint(0, 99))]], ["arr", sc.gen_ndarray(rng)]]]
+        old_obj = builder.build(old_recipe)
+        target = setup_sandbox(base, store, pre, old_obj)
+        pre_hash0 = tree_hash(target)
+        pre_content = {"absent": None, "file": ["foreign", 1], "earlier": ["complete", 3], "emptydir": ["foreign", 5]}[pre]
+        fs0 = [["sib", ["foreign", 9]]] + ([["T", pre_content]] if pre_content else [])
+        sib_hash = (tree_hash(os.path.join(base, "sib.txt")), tree_hash(os.path.join(base, "sibdir")))
+        ncalls = rng.randint(3, 5)
+        calls, recipes, specs = [], [], {3: sc.observe(old_obj) if pre == "earlier" else None}
+        impl_rows = []
+        last_ok = 3 if pre == "earlier" else None
+        case = {"history": True, "store": store, "pre": pre, "old_recipe": old_recipe, "calls": []}
+        for ci in range(ncalls):
+            cid = 11 + ci
+            g = sc.Gen(rng.fork(100 + ci), {"rng_in_container": True, "fallback_in_container": True})
+            recipe = g.root(rng.weighted([(1, 3), (2, 2)]))
+            obj = builder.build(recipe)
+            specs[cid] = sc.observe(obj)
+            mode = rng.choice(["o", "o", "w"])
+            # dry run in a throw-away sandbox: number of primitives of this call from the current state
+            exists = os.path.lexists(target)
+            refused = mode == "w" and exists
+            k = None
+            nt = nw = 0
+            if not refused:
+                dry = os.path.join(scratch, f"hist{h}-dry")
+                shutil.rmtree(dry, ignore_errors=True)
+                os.makedirs(dry)
+                dtarget = os.path.join(dry, os.path.basename(target))
+                if exists:
+                    (shutil.copytree if os.path.isdir(target) else shutil.copy2)(target, dtarget)
+                rec = Recorder(dtarget, None, Injected)
+                with instrumented(rec):
+                    rec.active = True
+                    try:
+                        with contextlib.redirect_stdout(io.StringIO()):
+                            obj.save(dtarget, mode=mode, store=store)
+                    finally:
+                        rec.active = False
+                steps = to_steps(rec.trace, zip_store)
+                n = len(rec.trace)
+                nt, nw = steps.count("tmpWrite"), steps.count("stageWrite")
+                shutil.rmtree(dry, ignore_errors=True)
+                u = rng.random()
+                if u < 0.35:
+                    k = None
+                elif u < 0.6:
+                    k = n - 1 - rng.below(min(3, n))      # around the install steps
+                else:
+                    k = rng.below(n)
+            exc_cls = InjectedInterrupt if (k is not None and (k + h) % 3 == 0) else Injected
+            rec = Recorder(target, k, exc_cls)
+            raised = None
+            with instrumented(rec):
+                rec.active = True
+                try:
+                    with contextlib.redirect_stdout(io.StringIO()):
+                        obj.save(target, mode=mode, store=store)
+                except (Injected, InjectedInterrupt):
+                    raised = "Injected"
+                except Exception as e:  # noqa
+                    raised = type(e).__name__
+                finally:
+                    rec.active = False
+            if raised is None:
+                last_ok = cid
+            case["calls"].append({"id": cid, "recipe": recipe, "mode": mode, "fault": k})
+            calls.append(dict({"staged": f"S{cid}", "id": cid, "modeO": mode == "o", "zip": zip_store, "nTmp": nt, "nWrites": nw},
+                              **({"fault": k} if k is not None else {})))
+            ctx.count()
+            # ---- property on the real filesystem after this call
+            post_hash = tree_hash(target)
+            listing = sorted(os.listdir(base))
+            extra = [p for p in listing if p not in ("sib.txt", "sibdir", os.path.basename(target))]
+            if not os.path.lexists(target):
+                state = "absent"
+            elif post_hash == pre_hash0 and pre_content is not None and (pre_content[0] == "foreign" or last_ok == 3):
+                state = "initial"
+            else:
+                try:
+                    with contextlib.redirect_stdout(io.StringIO()):
+                        ob = sc.canon_order(sc.observe(serialize.load(target)))
+                    hit = [i for i, sp in specs.items() if sp is not None and sc.prop_equal(sp, ob) is None]
+                    state = ("complete", last_ok) if last_ok in hit else ("loadable-other", hit[:3])
+                except Exception as e:  # noqa
+                    state = ("unreadable", type(e).__name__)
+            impl_rows.append({"raised": raised is not None, "state": state})
+            if isinstance(state, tuple) and state[0] in ("loadable-other", "unreadable") and not (pre == "file" and post_hash == pre_hash0):
+                if state[0] == "loadable-other":
+                    ctx.pred_fail(f"history-partial-or-stale:{store}", "after a history of saves the target loads to something that is not the "
+                                  "complete object of the most recent successful call", dict(case), observed=list(state), required=["complete", last_ok])
+            if extra:
+                ctx.pred_fail("leftover-path", "a save of a history left an extra path next to its target", dict(case), observed=extra, required=[])
+            if sib_hash != (tree_hash(os.path.join(base, "sib.txt")), tree_hash(os.path.join(base, "sibdir"))):
+                ctx.pred_fail("sibling-altered", "a save of a history altered a path other than its target", dict(case), observed="hash changed", required="unchanged")
+            if mode == "w" and exists and raised != "FileExistsError":
+                ctx.pred_fail("write-once", "write-once mode did not refuse an existing target (history)", dict(case), observed=raised, required="FileExistsError")
+        # ---- model: every prefix of the history
+        m = drv.ask({"op": "history", "target": "T", "staged": "S", "id": 0, "fs": fs0, "calls": calls})
+        rows = m.get("ok") or []
+        model_rows, prev_succ = [], []
+        for i in range(1, len(rows)):
+            fsm = dict((p, c) for p, c in rows[i]["fs"])
+            succ = rows[i]["succeeded"]
+            t = fsm.get("T")
+            if t is None:
+                st = "absent"
+            elif t == pre_content:
+                st = "initial"
+            elif t[0] == "complete":
+                st = ("complete", t[1])
+            else:
+                st = ("partial", t)
+            model_rows.append({"raised": len(succ) == len(prev_succ), "state": st,
+                               "staged_left": any(p.startswith("S") for p in fsm)})
+            prev_succ = succ
+        impl_cmp = [{"raised": r["raised"], "state": (list(r["state"]) if isinstance(r["state"], tuple) else r["state"]), "staged_left": False}
+                    for r in impl_rows]
+        model_cmp = [{"raised": r["raised"], "state": (list(r["state"]) if isinstance(r["state"], tuple) else r["state"]),
+                      "staged_left": r["staged_left"]} for r in model_rows]
+        if impl_cmp != model_cmp:
+            ctx.disagree("save-history", case, model_cmp, impl_cmp, note="outcome of every prefix of a history of saves vs runCalls")
+        ctx.mark(("history", store, pre, tuple((c["mode"], c["fault"] is not None) for c in case["calls"])))
+        ctx.dist[f"history:{store}:{pre}"] += 1
+        shutil.rmtree(base, ignore_errors=True)
+
+
 def run(ctx):
     from qv.driver import Driver
     drv = Driver("C08")
@@ -459,6 +601,7 @@ def run(ctx):
                     idx += 1
                 run_natural_failure(ctx, drv, recipe, store, rng.choice(["absent", "earlier"]), idx)
                 idx += 1
+        history_stream(ctx, drv, ctx.n(10, 100))
         ctx.exhaustive = False
         ctx.extra["exhaustive_in_fault_position_per_graph"] = True
     finally:
@@ -470,7 +613,9 @@ def replay(ctx, rep):
     case = rep.get("case") or rep["correspondence_disagreements"][0]["case"]
     drv = Driver("C08")
     try:
-        if "unpicklable_at" in case:
+        if case.get("history"):
+            history_stream(ctx, drv, ctx.n(10, 100))
+        elif "unpicklable_at" in case:
             run_natural_failure(ctx, drv, case["recipe"], case["store"], case["pre"], case["unpicklable_at"])
         else:
             run_config(ctx, drv, case["recipe"], case.get("old_recipe", ["obj", "SB", []]), case["store"], case["mode"], case["pre"], 0,
